@@ -308,8 +308,11 @@ static void enc(std::istringstream& is) {
     std::string v2 = vi.hex_str();
     int64_t back = 0; bool backok = true;
     try { back = Value(CScriptNum::serialize(x)).int_value(); } catch (...) { backok = false; }
-    printf("{\"e\":\"Enc\",\"neg\":%s,\"mag\":\"%s\",\"ser\":\"%s\",\"valhex\":\"%s\",\"backok\":%s,\"back\":\"%lld\"}\n",
-           x < 0 ? "true" : "false", hx(mg).c_str(), v1.c_str(), v2.c_str(), backok ? "true" : "false", (long long)back);
+    // the decimal text read the way script / stack arguments are read (integer literal recognition)
+    std::string lit = "?";
+    try { Value vl(d.c_str()); lit = hx(vl.data_value()); } catch (...) { lit = "exception"; }
+    printf("{\"e\":\"Enc\",\"neg\":%s,\"mag\":\"%s\",\"ser\":\"%s\",\"valhex\":\"%s\",\"backok\":%s,\"back\":\"%lld\",\"lit\":\"%s\"}\n",
+           x < 0 ? "true" : "false", hx(mg).c_str(), v1.c_str(), v2.c_str(), backok ? "true" : "false", (long long)back, lit.c_str());
 }
 
 // A crash of the code under test must not lose the trace: flush what was recorded, add a Crashed event,
